@@ -196,6 +196,61 @@ pub fn judge(h_calls: &[Call], docs: &[(Val, Fmt)], to: Fmt, acc: &mut Acc) {
     }
 }
 
+/// One command-line invocation over several input files in mixed formats must
+/// print exactly what separate invocations on each file print, in order.
+pub fn cli_case(seed: u64, idx: usize, acc: &mut Acc) {
+    use crate::procmon::{self, Run, Scratch, Status, StdinKind, StdoutKind};
+    let mut rng = Rng::derive(seed, 0xc03c, idx as u64);
+    let to = STREAMING[idx % 3];
+    let sc = Scratch::new();
+    let n = rng.range(2, 4);
+    let mut cl = Classes::default();
+    let mut feats = Feats::default();
+    let small = GenOpts { max_depth: 3, max_width: 3, ..GenOpts::common() };
+    let mut names: Vec<String> = vec![];
+    let mut stdin_bytes: Vec<u8> = vec![];
+    for i in 0..n {
+        let src = crate::fmts::ALL[rng.below(4)];
+        let (bytes, _) = crate::corpus::valid_stream(src, *rng.pick(&[1usize, 2, 3]), &mut rng, &mut feats, &mut cl, &small);
+        // a document-less YAML file read as a slice is a recorded C02 finding
+        let bytes = if src == Fmt::Yaml && crate::read::yaml::read_docs(&bytes).map(|d| d.is_empty()).unwrap_or(false) { b"a: 1\n".to_vec() } else { bytes };
+        let detectable = xt::verif::detect_slice(&bytes).ok().flatten().map(Fmt::from_xt) == Some(src);
+        if i == 1 && detectable && rng.chance(1, 4) {
+            stdin_bytes = bytes;
+            names.push("-".into());
+            continue;
+        }
+        let ext = if detectable && rng.chance(1, 3) { String::new() } else { format!(".{}", match src { Fmt::Yaml => *rng.pick(&["yaml", "yml", "YAML"]), f => f.name() }) };
+        let name = format!("in{i}{ext}");
+        sc.file(&name, &bytes);
+        names.push(name);
+    }
+    let bin = procmon::release_bin();
+    let run1 = |args: Vec<String>, stdin: &[u8]| procmon::run(Run { bin: &bin, argv: args, cwd: sc.path(), stdin: StdinKind::Bytes(stdin.to_vec()), stdout: StdoutKind::Pipe, wall_secs: 60, cpu_secs: 20 });
+    let mut expected = vec![];
+    for nm in &names {
+        let o = run1(vec!["-t".into(), to.name().into(), nm.clone()], &stdin_bytes);
+        if o.status != Status::Exit(0) {
+            // an input that cannot be translated alone (e.g. a value the target refuses) is not a C03 case
+            acc.count("cli_case_skipped_untranslatable_input");
+            return;
+        }
+        expected.extend_from_slice(&o.out_bytes());
+    }
+    let mut argv: Vec<String> = vec!["-t".into(), to.name().into()];
+    argv.extend(names.iter().cloned());
+    let all = run1(argv.clone(), &stdin_bytes);
+    acc.evals += 1;
+    acc.count("cli_multi_input_invocations");
+    if matches!(all.status, Status::Timeout | Status::SpawnError(_)) {
+        acc.inconclusive += 1;
+        return;
+    }
+    if all.status != Status::Exit(0) || all.stdout != expected {
+        acc.violation(Violation { sig: format!("CLI to={}: several inputs in one invocation differ from the inputs translated one by one", to.name()), case: json!({"part": "cli", "seed": seed, "index": idx}), observed: format!("argv {:?}: status {}, {} bytes [{}]; stderr [{}]", argv, all.status.show(), all.stdout.len(), preview(&all.stdout, 120), preview(&all.stderr, 160)), expected: format!("exit 0 and the {} bytes of the separate invocations [{}]", expected.len(), preview(&expected, 120)) });
+    }
+}
+
 pub fn run(ctx: &Ctx) -> i32 {
     let n = ctx.size(40000, 1500000);
     let seed = ctx.seed;
@@ -220,7 +275,11 @@ pub fn run(ctx: &Ctx) -> i32 {
         acc.sample_every(499, || json!({"to": to.name(), "documents": h.docs.len(), "calls": h.calls.iter().map(|c| json!({"from": fmts::from_name(c.from), "mode": c.mode.describe(), "input_preview": preview(&c.input, 100)})).collect::<Vec<_>>()}));
         judge(&h.calls, &h.docs, to, acc);
     });
-    let rule = format!("{} histories: N in {{0,1,2,3,4,5,17,300}} documents (scalars first, empty and large collections, strings padded so documents end at 8192/16384 +-2) distributed over 1-4 translate calls on one Translator, each call in its own source format (JSON/MessagePack/YAML, or TOML for one document), slice or reader under a schedule, explicit or detected, with every separator style the source allows (JSON none/blank/newlines; YAML '---', '--- value', '...'+'---', comments, blank lines, %YAML directives), targets JSON/MessagePack/YAML in turn; distinct non-trivial = distinct (inputs, target) with >= 2 documents", n);
+    let mut acc = acc;
+    let n_cli = ctx.size(400, 8000);
+    let cli = crate::par::run(n_cli, 4, |i, acc| cli_case(seed, i, acc));
+    acc.merge(cli);
+    let rule = format!("{} histories: N in {{0,1,2,3,4,5,17,300}} documents (scalars first, empty and large collections, strings padded so documents end at 8192/16384 +-2) distributed over 1-4 translate calls on one Translator, each call in its own source format (JSON/MessagePack/YAML, or TOML for one document), slice or reader under a schedule, explicit or detected, with every separator style the source allows (JSON none/blank/newlines; YAML '---', '--- value', '...'+'---', comments, blank lines, %YAML directives), targets JSON/MessagePack/YAML in turn; plus {} command-line invocations of the release binary over 2-4 input files in mixed formats (by extension or detected, one possibly on stdin) compared with separate invocations per file; distinct non-trivial = distinct (inputs, target) with >= 2 documents", n, n_cli);
     ev::finish(
         Finish {
             ctx,
@@ -230,7 +289,7 @@ pub fn run(ctx: &Ctx) -> i32 {
             extra: serde_json::Map::new(),
             exhaustive: false,
             min_distinct: 500,
-            must_reach: vec![("framing_checked".into(), 1000), ("n_docs_300".into(), 10), ("n_docs_0".into(), 10), ("n_calls_3".into(), 10)],
+            must_reach: vec![("cli_multi_input_invocations".into(), 100), ("framing_checked".into(), 1000), ("n_docs_300".into(), 10), ("n_docs_0".into(), 10), ("n_calls_3".into(), 10)],
         },
         acc,
     )
@@ -238,6 +297,17 @@ pub fn run(ctx: &Ctx) -> i32 {
 
 pub fn replay(v: &Value) -> i32 {
     let c = &v["case"];
+    if c["part"].as_str() == Some("cli") {
+        let mut acc = Acc::default();
+        cli_case(c["seed"].as_u64().unwrap_or(0), c["index"].as_u64().unwrap_or(0) as usize, &mut acc);
+        return if acc.vio_count > 0 {
+            println!("VIOLATION property=C03 replay=<this file> (reproduced): {}", acc.violations[0].observed);
+            1
+        } else {
+            println!("not reproduced");
+            0
+        };
+    }
     let (Some(calls), Some(to)) = (parse_calls(&c["calls"]), c["to"].as_str().and_then(Fmt::parse)) else {
         println!("bad replay case");
         return 2;
